@@ -72,7 +72,18 @@ fn flag_names(bits: u8, names: &[(u8, &str)]) -> String {
 }
 
 impl Enc {
+    /// Class used in fingerprints. For rANS Nx16 and the arithmetic coder the flag set is named
+    /// without `NOSIZE` (it only drops the length prefix of the stream; over all 64 pairs of flag
+    /// sets the observed symptom sets with and without it were identical).
     pub fn class(&self) -> String {
+        match self {
+            Enc::Nx16(f) if f & 0x10 != 0 => Enc::Nx16(f & !0x10).class(),
+            Enc::Aac(f) if f & 0x10 != 0 => Enc::Aac(f & !0x10).class(),
+            _ => self.full_name(),
+        }
+    }
+
+    pub fn full_name(&self) -> String {
         match self {
             Enc::None => "none".into(),
             Enc::Gzip(l) => format!("gzip{l}"),
@@ -180,7 +191,7 @@ impl WriteCfg {
             self.preserve_names,
             self.pos_delta,
             self.target.name(),
-            if self.target == Target::DefaultMap { "default-map".to_string() } else { self.enc.class() },
+            if self.target == Target::DefaultMap { "default-map".to_string() } else { self.enc.full_name() },
         )
     }
 
